@@ -19,35 +19,35 @@ end
 
 mutual
 /-- names and constants are leaves; no `Starred` (the code marks it external whatever it holds) -/
-def WF : Node → Bool
+def WF (sf : Bool) : Node → Bool
   | .mk kind _ _ ch =>
     (match kind with
-     | .starred => false
+     | .starred => !sf
      | .nameLoad => ch.isNil
      | .const => ch.isNil
-     | _ => true) && WFAll ch
-def WFAll : Nodes → Bool
+     | _ => true) && WFAll sf ch
+def WFAll (sf : Bool) : Nodes → Bool
   | .nil => true
-  | .cons n t => WF n && WFAll t
+  | .cons n t => WF sf n && WFAll sf t
 end
 
 theorem usesBoundAll_nil_of_isNil (ctx : List String) (ch : Nodes) (h : ch.isNil = true) : usesBoundAll ctx ch = false := by
   cases ch <;> simp_all [Nodes.isNil, usesBoundAll]
 
 /-- `node.external` in closed form -/
-def extFlag (ctx : List String) (kind : Kind) (names : List String) (ch : Nodes) : Bool :=
+def extFlag (sf : Bool) (ctx : List String) (kind : Kind) (names : List String) (ch : Nodes) : Bool :=
   match kind with
   | .lambda => false
-  | .nameLoad => if names.any (fun n => ctx.contains n) then !ch.isNil && (classifyAll ctx ch).all else true
+  | .nameLoad => if names.any (fun n => ctx.contains n) then !ch.isNil && (classifyAll sf ctx ch).all else true
   | .const => true
-  | .starred => true
-  | .listD => (classifyAll ctx ch).all
-  | .dictD => (classifyAll ctx ch).all
-  | .slice => ch.isNil || (classifyAll ctx ch).all
-  | _ => !ch.isNil && (classifyAll ctx ch).all
+  | .starred => if sf then true else !ch.isNil && (classifyAll sf ctx ch).all
+  | .listD => (classifyAll sf ctx ch).all
+  | .dictD => (classifyAll sf ctx ch).all
+  | .slice => ch.isNil || (classifyAll sf ctx ch).all
+  | _ => !ch.isNil && (classifyAll sf ctx ch).all
 
-theorem classify_ext (ctx : List String) (kind : Kind) (lab : Nat) (names : List String) (ch : Nodes) :
-    (classify ctx (.mk kind lab names ch)).ext = extFlag ctx kind names ch := by
+theorem classify_ext (sf : Bool) (ctx : List String) (kind : Kind) (lab : Nat) (names : List String) (ch : Nodes) :
+    (classify sf ctx (.mk kind lab names ch)).ext = extFlag sf ctx kind names ch := by
   cases kind
   case nameLoad =>
     by_cases hb : names.any (fun n => ctx.contains n) = true
@@ -56,13 +56,18 @@ theorem classify_ext (ctx : List String) (kind : Kind) (lab : Nat) (names : List
   all_goals (simp only [classify, extFlag] <;> (repeat' split) <;> simp_all)
 
 mutual
-theorem ext_sound (ctx : List String) : (n : Node) → WF n = true → (classify ctx n).ext = true → usesBound ctx n = false
+theorem ext_sound (sf : Bool) (ctx : List String) : (n : Node) → WF sf n = true → (classify sf ctx n).ext = true → usesBound ctx n = false
   | .mk kind lab names ch, hw, he => by
-    have ih := extAll_sound ctx ch
+    have ih := extAll_sound sf ctx ch
     rw [classify_ext] at he
     cases kind <;> simp only [WF, Bool.and_eq_true, extFlag] at hw he <;> simp only [usesBound]
     case lambda => simp at he
-    case starred => simp at hw
+    case starred =>
+      simp at hw
+      obtain ⟨hsf, hw2⟩ := hw
+      subst hsf
+      simp at he
+      exact ih hw2 he.2
     case nameLoad =>
       rw [usesBoundAll_nil_of_isNil ctx ch hw.1]
       split at he
@@ -78,12 +83,12 @@ theorem ext_sound (ctx : List String) : (n : Node) → WF n = true → (classify
     case keyword => exact ih (by simpa using hw) (by simp at he; exact he.2)
     case tuple => exact ih (by simpa using hw) (by simp at he; exact he.2)
     case other => exact ih (by simpa using hw) (by simp at he; exact he.2)
-theorem extAll_sound (ctx : List String) : (ns : Nodes) → WFAll ns = true → (classifyAll ctx ns).all = true → usesBoundAll ctx ns = false
+theorem extAll_sound (sf : Bool) (ctx : List String) : (ns : Nodes) → WFAll sf ns = true → (classifyAll sf ctx ns).all = true → usesBoundAll ctx ns = false
   | .nil, _, _ => by simp [usesBoundAll]
   | .cons n t, hw, he => by
     simp only [WFAll, Bool.and_eq_true] at hw
     simp only [classifyAll, Bool.and_eq_true] at he
-    simp [usesBoundAll, ext_sound ctx n hw.1 he.1, extAll_sound ctx t hw.2 he.2]
+    simp [usesBoundAll, ext_sound sf ctx n hw.1 he.1, extAll_sound sf ctx t hw.2 he.2]
 end
 
 end PonyVerif.Model.PreTrans
